@@ -963,7 +963,12 @@ class Program:
             node = fi.node
             if isinstance(node, ast.Lambda) or fi.is_abstract or fi.is_dispatch_base:
                 return None
-            body = fi.real_body()
+            body = [st for st in fi.real_body() if not isinstance(st, ast.Pass)]
+            if len(body) == 2 and isinstance(body[0], ast.Assign) and len(body[0].targets) == 1 and \
+                    isinstance(body[0].targets[0], ast.Name) and isinstance(body[0].value, ast.Call) and \
+                    isinstance(body[1], ast.Return) and isinstance(body[1].value, ast.Name) and \
+                    body[1].value.id == body[0].targets[0].id:
+                body = [ast.Return(value=body[0].value)]            # r = callee(...); return r
             if len(body) != 1 or not isinstance(body[0], ast.Return) or not isinstance(body[0].value, ast.Call):
                 return None
             c = body[0].value
